@@ -75,7 +75,7 @@ def variants(text, path, gz_path, crlf_path):
 
 
 def check_genbank(run, scratch, stats, tlc_emit):
-    recs, res = tlc_emit(run, "SeqFormatsGb", f"MC_SeqFormatsGb_{run.tier}.cfg", scratch, "genbank")
+    recs, res = tlc_emit(run, "SeqFormatsGb", f"MC_SeqFormatsGb_{run.tier}.cfg", scratch, "genbank", workers=1)  # a file of three 121-residue records exceeds one atomic append
     stats["SeqFormatsGb"] = {"tlc_states": res.distinct, "tlc_transitions": res.generated, "tlc_wall_s": round(res.wall, 1), "emitted": len(recs)}
     d = scratch / "gb"
     d.mkdir()
